@@ -25,12 +25,12 @@ theorem unreachable_sound (ω : Oracle) (fuel : Nat) (l : List Stmt) (s : St) :
     execList ω fuel (deleteUnreachable l) s = execList ω fuel l s := deleteUnreachable_sound ω fuel l s
 
 /-- a conditional loop is never blocking: it may run zero times -/
-theorem conditional_while_not_blocking (p : Par) (id : Nat) (neg : Bool) (b : List Stmt) : blocks p (.whileS (.unk id neg) b) = false := by
+theorem conditional_while_not_blocking (p : Par) (id : Nat) (neg : Bool) (b e : List Stmt) : blocks p (.whileS (.unk id neg) b e) = false := by
   cases p <;> simp [blocks]
 
 /-- `while True` with a loop-level `break` is not blocking -/
-theorem while_true_break_not_blocking (p : Par) (b : List Stmt) (h : hasBrkL b = true) :
-    blocks p (.whileS .tt b) = false := by
+theorem while_true_break_not_blocking (p : Par) (b e : List Stmt) (h : hasBrkL b = true) :
+    blocks p (.whileS .tt b e) = false := by
   cases p <;> simp [blocks, h]
 
 /-- **Pointless means clean**: whatever `has_side_effect` reports free of side effects contains — anywhere: in a
@@ -46,12 +46,22 @@ example : hse ["print"] (.comp [.call (.name "g" .load) [.name "x" .load] []] [(
 agrees with the code, and `Clean` — which speaks about callees only — holds -/
 example : hse ["sorted"] (.call (.name "sorted" .load) [.coll [.const]] [.name "g" .load]) = false := by decide
 
+/-- a `break` in the `else` clause of a nested loop, or in any part of a nested `try`, belongs to the enclosing loop:
+such a `while True` is not blocking -/
+example : blocks .none (.whileS .tt [.forS .unk [.simple 1] [.brk]] []) = false := by
+  simp [blocks, hasBrk, hasBrkL]
+example : blocks .none (.whileS .tt [.tryS [.ret] .none [] [.brk]] []) = false := by
+  simp [blocks, hasBrk, hasBrkL]
+/-- a `try` statement is never reported blocking -/
+theorem try_not_blocking (p : Par) (b : List Stmt) (hk : HKind) (hb f : List Stmt) : blocks p (.tryS b hk hb f) = false := by
+  cases p <;> simp [blocks]
+
 /-! non-vacuity: concrete shapes on both sides -/
-example : blocks .none (.whileS .tt [.ite (.unk 0 false) [.cont] [], .simple 0]) = true := by
+example : blocks .none (.whileS .tt [.ite (.unk 0 false) [.cont] [], .simple 0] [.ret]) = true := by
   simp [blocks, blocksL, firstIter, hasBrk, hasBrkL, hasJmp, hasJmpL]
-example : blocks .none (.forS .nonempty [.simple 0, .ite (.unk 0 true) [.ret] [.raise]]) = true := by
+example : blocks .none (.forS .nonempty [.simple 0, .ite (.unk 0 true) [.ret] [.raise]] []) = true := by
   simp [blocks, blocksL, firstIter, hasBrk, hasBrkL, hasJmp, hasJmpL]
-example : blocks .none (.whileS .tt [.ite (.unk 0 false) [.brk] [], .ret]) = false := by
+example : blocks .none (.whileS .tt [.ite (.unk 0 false) [.brk] [], .ret] []) = false := by
   simp [blocks, blocksL, firstIter, hasBrk, hasBrkL, hasJmp, hasJmpL]
 
 end C16
